@@ -224,7 +224,8 @@ class FortranHarness(object):
                 gx.m.store_int(P(40), z3.BitVecVal(stride, 64), 64)
                 gx.m.store_int(P(48), z3.BitVecVal(1, 64), 64)
                 gx.m.store_int(P(56), n, 64)
-                self.act[pn] = Actual("array", desc=desc, obj=dobj, n=n, size=n, esz=esz, stride=stride, arr0=dobj.arr, v0=n)
+                self.act[pn] = Actual("array", desc=desc, obj=dobj, n=n, size=n, esz=esz, stride=stride, arr0=dobj.arr, v0=n,
+                                      family=mm.group(1))
                 argv.append(Ptr(desc, 0))
             elif pt.kind == "ptr" and pt.to.kind == "struct" and (pt.to.name or "") == "array01_character(kind=1)" and pn in lens:
                 n = z3.BitVec("size_" + pn, 64)
@@ -388,6 +389,10 @@ class FortranHarness(object):
                         self.expect_fail("%s is not the caller's character variable" % what, not ok)
                         if p.intent in ("out", "inout") and "len" in sib[p.name] and not p.const:
                             self.havoc_text(gx, a, rec, key=key)
+                    elif p.intent in ("out", "inout") and not p.const:
+                        # the C side must blank-fill / copy back inside LEN(actual): it cannot without being told the length
+                        self.expect_fail("%s: an intent(%s) character argument is passed to a C function that is not given its length "
+                                         "(no *_bufferify entry point was generated for it)" % (what, p.intent), True)
                     else:
                         # a NUL-terminated copy of TRIM(actual)
                         if not (isinstance(v, Ptr) and v.obj is not None):
@@ -411,15 +416,19 @@ class FortranHarness(object):
                     direct = isinstance(v, Ptr) and v.obj is a.obj and conc(v.off) == 0
                     packed = isinstance(v, Ptr) and v.obj is not None and v.obj.tag.get("packed_from") is not None and \
                         v.obj.tag["packed_from"][0].obj is a.obj and conc(v.off) == 0
-                    if a.stride == 1:
-                        self.expect_fail("%s is not the caller's array" % what, not (direct or packed))
+                    fparam = next((q for q in (self.node.ast.params or []) if q.name.lower() == key), None)
+                    raw = fparam is not None and fparam.attrs["deref"] == "raw"
+                    if a.stride == 1 or raw:
+                        # (+deref(raw): the wrapper passes C_LOC(actual), the address of the section's first element)
+                        self.expect_fail("%s is not the caller's array" % what, not (direct or (packed and not raw)))
                     else:
                         # an empty section may be passed as it is
                         self.expect_fail("%s is neither a packed copy of the caller's section nor the (empty) section itself" % what,
                                          not (packed or direct))
                         if direct:
                             self.expect_fail("%s: a strided section is passed without packing" % what, a.n != 0)
-                    if kind != "vector" and isinstance(v, Ptr) and v.obj is not None and v.obj.live and not p.const and p.intent in ("out", "inout"):
+                    f_intent = (fparam.attrs["intent"] if fparam is not None and fparam.attrs["intent"] else p.intent)
+                    if kind != "vector" and isinstance(v, Ptr) and v.obj is not None and v.obj.live and not p.const and f_intent in ("out", "inout"):
                         gx.m.flush(v.obj)
                         new = z3.Array("reply_array_%s!%d" % (key, gx.m.fresh_n), z3.BitVecSort(64), z3.BitVecSort(8))
                         gx.m.fresh_n += 1
@@ -728,12 +737,21 @@ class FortranHarness(object):
         return None, None
 
     def implied_value(self, text, byname):
-        m = re.match(r"^\s*(size|len|len_trim)\s*\(\s*(\w+)\s*\)\s*$", text)
+        m = re.match(r"^\s*(size|len|len_trim|type)\s*\(\s*(\w+)\s*\)\s*$", text)
         if not m:
             return None
         a = byname.get(m.group(2).lower())
         if a is None:
             return None
+        if m.group(1) == "type":
+            # the documented type tag of the ACTUAL argument's type (the SH_TYPE_* constants of the generated header)
+            if a.kind != "array":
+                return None
+            cname = {("integer", 4): "INT", ("integer", 8): "LONG", ("integer", 2): "SHORT", ("real", 4): "FLOAT",
+                     ("real", 8): "DOUBLE"}.get((a.family, a.esz))
+            hdr = "".join(t for n_, t in self.fb.files.items() if n_.startswith("types") and n_.endswith(".h"))
+            mm = re.search(r"(?m)^#define\s+SH_TYPE_%s\s+(\d+)\s*$" % cname, hdr) if cname else None
+            return z3.BitVecVal(int(mm.group(1)), 64) if mm else None
         if m.group(1) == "len" and a.kind == "char":
             return a.n
         if m.group(1) == "len_trim" and a.kind == "char":
